@@ -26,6 +26,13 @@ def run(ck, tier, seed):
         for eng in ("interp", "vm0", "vm1", "vm2", "vm0p", "vm1p", "vm2p"):
             ob = o.get(eng)
             ck.cov["evaluations"] += 1
+            slow_ok = p["tags"][0] == "random" and (c["out"]["kind"] == "unrep" or c["out"].get("class") == "limit")
+            if ob and ob.get("kind") == "hang" and slow_ok:
+                # a random program bound only by the iteration limit: a million iterations of a body that, say, appends to
+                # a string are minutes of (bounded) work; the 6 s watchdog is no verdict. Non-termination is judged on the
+                # dedicated programs and the socket probe
+                ck.cov["slow_limit_bound_random_programs"] = ck.cov.get("slow_limit_bound_random_programs", 0) + 1
+                continue
             if ob and ob.get("kind") in ("panic", "hang"):
                 sig = "%s/%s/%s" % (eng, ob["kind"], ("/".join(p["tags"][:3]) if p["tags"][0] != "random" else ob.get("msg", "")[:30]))
                 if sig not in seen:
@@ -34,6 +41,8 @@ def run(ck, tier, seed):
         for h in ("httpC", "httpI"):
             ob = o.get(h)
             if ob is None or (isinstance(ob, dict) and "setup" in ob):
+                continue
+            if ob.get("kind") == "hang" and p["tags"][0] == "random" and (c["out"]["kind"] == "unrep" or c["out"].get("class") == "limit"):
                 continue
             if ob.get("kind") in ("panic", "hang"):
                 sig = "%s/%s" % (h, ob["kind"])
